@@ -63,15 +63,15 @@ CHECKS["C12"] = ("exploration",
                  "After an environment fault only totality is demanded (deliberately narrow). 'Unsupported' is decided dynamically from the captured log output of the Step. A Run that ignores cancellation ends the scenario without verdict (that is C13's subject). The real-goroutine watcher of Run makes the number of Steps after cancel() schedule dependent; nothing is compared after it.",
                  "deterministic simulation: environment fault injection (degraded devices, malformed requests at chosen instants) + totality/recover oracle",
                  "DESIGN.md 4 C12",
-                 "seeded hostile worlds: memory kind/length, io kind/length, IM, hostile patch at PC or at the top of memory, 0-3 malformed requests at boundaries or ticks; 1 in 4 driven by Run with a Step-driven twin and a tick budget; every scenario is non-trivial (distinct by fingerprint)",
+                 "seeded hostile worlds: memory kind/length, io kind/length, IM, hostile patch at PC or at the top of memory, 0-3 malformed requests at boundaries or ticks (long data led by a seeded instruction); 1 in 4 driven by Run with a Step-driven twin and a tick budget; 1 in 4 of the Step-driven ones with the library's memory/port types handed to the CPU directly; every scenario is non-trivial (distinct by fingerprint)",
                  ["implementation's invalid-code warning contains the word 'invalid'"])
 
 CHECKS["C10"] = ("fault_enumeration",
-                 "(a) every scenario is executed twice and must produce the identical boundary-by-boundary record; (b) crash/restart with only durable state surviving: at EVERY Step boundary of each sampled world (structured programs and arbitrary byte strings, with NMI/INT events at boundaries, inside accesses and on RETI) a new CPU is built from copies of States, memory image, pending request and device cursors and must equal the original at every later boundary (registers incl. R, HALT, complete bus history, pending request, notifications) and in the final memory image; (c) 2..16 CPUs with their own programs and devices on their own goroutines, parked at every bus access and released one at a time by the seeded scheduler, each compared with its solo run; (d) side-car outside the family: the same worlds free-running in the -race binary, verdict = race detector.",
+                 "(a) every scenario is executed twice and must produce the identical boundary-by-boundary record; (b) crash/restart with only durable state surviving: at EVERY Step boundary of each sampled world (structured programs and arbitrary byte strings, with NMI/INT events at boundaries, inside accesses and on RETI) a new CPU is built from copies of States, memory image, pending request and device cursors and must equal the original at every later boundary (registers incl. R, HALT, complete bus history, pending request, notifications) and in the final memory image; (c) 2..16 CPUs with their own programs and devices on their own goroutines, parked at every bus access and released one at a time by the seeded scheduler, each compared with its solo run; (d) side-car outside the family: the same worlds free-running in the -race binary, verdict = race detector. (e) memory-type independence: the same world on the recording device, on the library's DumbMemory, on a fully populated MapMemory and on DumbMemory+DumbIO against neutral array devices with equal contents must agree at every boundary (the outcome may depend on the bytes returned, not on which implementation returns them). Requests are built through the library's own constructors.",
                  "Restored CPU also receives the public HALT field (public state). The controlled scheduler serialises through channels and therefore cannot see data races; that part is delegated to the race side-car, which is runtime monitoring, not schedule-replayable (its replay file is the stress configuration) and is labelled so in the evidence. Long worlds in the thorough tier sample snapshot points with a stride.",
                  "deterministic simulation: crash/restore at every boundary + seeded goroutine interleaving at bus accesses; race detector side-car",
                  "DESIGN.md 4 C10",
-                 "2 of 3 scenarios: one world (20-300 Steps) x every snapshot boundary; 1 of 3: 2-16 worlds interleaved under a seeded pick sequence; race-binary workers: 2-16 free-running worlds; distinct non-trivial = (world, snapshot boundary) pairs that were restored and followed to the end, plus interleaved worlds with more context switches than CPUs",
+                 "2 of 3 scenarios: one world (20-300 Steps) executed twice, then on the library's DumbMemory / MapMemory / DumbIO against neutral devices with equal contents (memory-type independence), then x every snapshot boundary; 1 of 3: 2-16 worlds interleaved under a seeded pick sequence; race-binary workers: 2-16 free-running worlds; distinct non-trivial = (world, snapshot boundary) pairs that were restored and followed to the end, plus interleaved worlds with more context switches than CPUs",
                  ["durable state = States + memory image + pending request + device cursors + HALT flag"])
 
 CHECKS["C18"] = ("exploration",
@@ -79,7 +79,7 @@ CHECKS["C18"] = ("exploration",
                  "BDOS specification is three lines (fn 2 -> [E]; fn 9 -> bytes at DE up to '$'). Unsupported function numbers: only 'no panic, Run returns' is demanded (statement silent).",
                  "deterministic simulation: real tinycpm devices, fault-injecting console writer, host re-entry/cancel/interrupt events",
                  "DESIGN.md 4 C18",
-                 "seeded CP/M programs; 1/3 with breakpoints after every call, 1/3 with 1-3 failing console writes, 1/3 with NMI/INT at ticks, 1/8 with cancellations at ticks; non-trivial = program asks for at least one console byte; distinct by scenario fingerprint",
+                 "seeded CP/M programs; 1/3 with breakpoints after every call, 1/3 with 1-3 failing console writes, 1/3 with NMI/INT at ticks, 1/8 with cancellations at ticks, 1/4 of the interrupt-free ones with a tight stack; non-trivial = program asks for at least one console byte; distinct by scenario fingerprint",
                  ["BDOS behaviour as in the property statement"])
 
 CHECKS["C13"] = ("fault_enumeration",
@@ -87,7 +87,7 @@ CHECKS["C13"] = ("fault_enumeration",
                  "Liveness bound is deliberately generous (65536 Steps) so that a legitimate 'poll every n Steps' optimisation does not alarm (checked: a poll-every-64 variant stays quiet). With an already-cancelled context the very first Step races with the watcher by design (no seam before the first access): both outcomes are accepted and excluded from the replayable statistics. Process-wide goroutine counts are not used as an oracle (the runtime starts helper goroutines lazily; it was flaky) - the bubble-scoped deadlock panic is. The race side-car and the reuse side-car are runtime monitoring of uncontrolled schedules, outside the family: there is no seam between a stale watcher's wake-up and its store, so that interleaving cannot be forced; their replay file is the stress scenario, re-executed up to 6 times for confirmation.",
                  "deterministic simulation: synctest bubble (fake clock, quiescence) + device-callback yield points + caller-supplied context as a second seam; enumerated cancellation instants",
                  "DESIGN.md 4 C13",
-                 "5 of 6 scenarios: one bubble = 4-12 Run calls on fresh CPUs, each cancelled at its own tick (half of them consecutive ticks), parent context in {Background, WithCancel, WithTimeout, nested, SimCtx with held Err call}, cancel by {self, other goroutine, fake-clock deadline, pre-cancelled, never}; 1 of 6: 200-10000 consecutive Run calls for leak accounting; race-binary workers: half bubbles, half free-running; distinct non-trivial = (scenario, cancellation instant) pairs in which Run was actually ended by the cancellation",
+                 "5 of 6 scenarios: one bubble = 4-12 Run calls on fresh CPUs, each cancelled at its own tick (half of them consecutive ticks), parent context in {Background, WithCancel, WithTimeout, nested, SimCtx with held Err call}, cancel by {self, other goroutine, fake-clock deadline, pre-cancelled, never}; 1 of 6: 200-10000 consecutive Run calls for leak accounting; 1 of 12: 'reuse' (one CPU object, 50-300 rounds of short Run / late cancel / long Run; schedule not owned, labelled); loop programs: JR, DJNZ nest, LDIR BC=0 onto itself, IN/OUT, JP (IX) self-loop, LDIR+JP (IX), IN A,(C) wait loop, each with a seeded initial R; cancellation instants also bracket the natural stop of structured programs, and cancelled Runs are resumed; race-binary workers: bubbles, free-running cancellation and reuse; distinct non-trivial = (scenario, cancellation instant) pairs in which Run was actually ended by the cancellation",
                  ["synctest.Wait() returns only when all other goroutines of the bubble are durably blocked", "B = 65536 Steps"])
 
 PENDING = []
